@@ -208,7 +208,8 @@ class AutoLink(SpanToken):
         content = match.group(self.parse_group)
         self.children = (RawText(content),)
         self.target = content
-        self.mailto = '@' in self.target and 'mailto' not in self.target.casefold()
+        # an absolute URI has a scheme followed by ':', an email address cannot contain ':'
+        self.mailto = ':' not in self.target
 
 
 class EscapeSequence(SpanToken):
